@@ -20,6 +20,13 @@ interpreters started with -O and with PYTHONOPTIMIZE=1 (assert statements and th
 compiled away, __debug__ is False).  An outcome that is the outcome of the checking process has the same
 Coq term and keeps its verdict; any other outcome is judged by the same c17_case term and reported with
 the suffix ':optimised-interpreter' (e.g. a rejection the property demands that no longer happens).
+
+Every call above is ONE use of a helper of a container.  Re-entrant and interleaved use of the iteration / indexing
+helpers of the SAME container object (nested loops, zip(x.bins, x.bins), half-consumed generators, iter() taken twice,
+list() / indexing / lengths in between, for all seven container classes incl. RedshiftData / HistData) is the family
+of props/c17_cursors.py, judged by c17_cursor_case of Model/Cursors.v (signatures
+c17-<class>-<axis>-[interleaved-]iteration-{wrong-item,ends-early,raises}[:shared-position], ...-index-during-iteration-
+wrong-result, ...-item-wrong-class, ...-yielded-item-changed-later, ...-container-changed).
 """
 import copy
 import json
@@ -41,6 +48,9 @@ TRUSTED = [
     "the documented container semantics require of their result (nested lists over Q)",
     "encoders of the five container classes into Coq records (harness/props/c17.py: enc_*), read from the "
     "attributes of the real objects after construction",
+    "recorder of cursor operations (harness/props/c17_cursors.py: run_prog): it executes for / zip / map / list / generator "
+    "constructs literally on the real helpers and notes each iter(), each yielded item and each end of a loop; the end of "
+    "a zip() is attributed to its first argument (the arguments are ordered by length)",
 ]
 ASSUMPTIONS = [
     "container entries are finite (no NaN / inf); cases whose sampled ratios are non-finite "
@@ -51,13 +61,17 @@ ASSUMPTIONS = [
     "normalised ratios and estimator values are compared with |impl - model| <= 2^-40 (1 + |model|)",
     "ValueError / TypeError / IndexError count as 'rejected with an error'; any other exception "
     "type is reported as a failure of the operator that raised it",
+    "interleaved iteration: a cursor is obtained by iter() / for / zip / list on the helper READ FROM THE CONTAINER (x.bins, "
+    "x.patches) for every iteration; an Indexer object kept in a variable is an Iterator by its declared type (iter(h) is h) "
+    "and is not judged (counted as held-helper-is-its-own-iterator); iter() is not applied a second time to a cursor",
     "interpreter start-up modes explored: default, -O, PYTHONOPTIMIZE=1 (-OO cannot be run: the third-party "
     "dependency treecorr does not import with docstrings stripped)",
 ]
 RULE = ("cases = (container class, shape (bins, patches), auto, members, operator / indexer, scalar or "
         "index expression or kind of second operand, data seed); distinct by that tuple; non-trivial "
         "when the call reaches array arithmetic / indexing on a container with >= 2 bins or >= 2 patches "
-        "or is a rejected operand combination")
+        "or is a rejected operand combination; cursor programs = (objects, program over for / zip / map / list / generators "
+        "/ iter / next / index / len); non-trivial when at some moment >= 2 unfinished iterations over one helper exist")
 HEADER = "From Verif Require Import Prelude Containers.\nOpen Scope Q_scope.\n"
 
 REJECT = (ValueError, TypeError, IndexError)
